@@ -1,7 +1,7 @@
 (* Extraction of the connection-layer model (C14, C13) to OCaml (build/kmodel).
    Directives used: ExtrOcamlBasic and ExtrOcamlNativeString only; N / nat / Z stay the extracted inductives. *)
 From Coq Require Import Extraction ExtrOcamlBasic ExtrOcamlNativeString.
-From KV Require Import Lib.Str Lib.ByteSeq Model.Conn Model.Proto Spec.StreamParse.
+From KV Require Import Lib.Str Lib.ByteSeq Model.Conn Model.ConnArm Model.Proto Spec.StreamParse.
 
 Extraction Blacklist String List Bool.
 
@@ -9,5 +9,6 @@ Separate Extraction
   ByteSeq.len ByteSeq.preamble_bytes ByteSeq.size_of_header ByteSeq.payload_size ByteSeq.type_id
   Conn.init Conn.on_data Conn.feed Conn.feed_raw Conn.fuel_for Conn.find_preamble
   Conn.chunk_ok Conn.filler_ok Conn.wf_msg Conn.wf_item Conn.stream_of
+  ConnArm.feed_arm ConnArm.ainit ConnArm.eff_largest ConnArm.msg_fits ConnArm.chunk_fits ConnArm.cap
   StreamParse.stream_parse
   Proto.dispatch Proto.transmit Proto.round_trip Proto.sent_bytes Proto.iface_ok Proto.int8_ok Proto.attempts Proto.first_accept.
